@@ -108,6 +108,55 @@ def attrValue (v : List Char) : List DCh :=
   | some (_, body) => normAttr body
   | none => [.bad]
 
+/-! ## grammar of character data and attribute values
+
+XML 1.0 productions [14] `CharData`, [10] `AttValue`, [66] `CharRef`, [68] `EntityRef`: character data and the
+content of an attribute value literal are sequences of *units*, a unit being a literal byte other than `<`
+and `&`, or a reference.  The theorems of `Props/C06.lean` quantify over all such sequences. -/
+
+inductive XUnit
+  | lit (c : Char)           -- literal byte
+  | named (nm : List Char)   -- `&nm;`
+  | dec (ds : List Char)     -- `&#ds;`
+  | hex (ds : List Char)     -- `&#xds;`
+  deriving DecidableEq, Repr
+
+def XUnit.chars : XUnit → List Char
+  | .lit c => [c]
+  | .named nm => '&' :: (nm ++ [';'])
+  | .dec ds => '&' :: '#' :: (ds ++ [';'])
+  | .hex ds => '&' :: '#' :: 'x' :: (ds ++ [';'])
+
+/-- literal byte allowed in character data / attribute values: not `<`, not `&`, a legal character
+(`S`, or ≥ 0x20; bytes ≥ 0x80 are parts of UTF-8 sequences) -/
+def litOk (c : Char) : Bool := c != '<' && c != '&' && (isS c || 32 ≤ c.toNat)
+
+def XUnit.ok : XUnit → Bool
+  | .lit c => litOk c
+  | .named nm => !nm.isEmpty && nm.all isNameChar
+  | .dec ds => !ds.isEmpty && ds.all isDig && legalChar (numVal 10 ds)
+  | .hex ds => !ds.isEmpty && ds.all isHex && legalChar (numVal 16 ds)
+
+/-- the character a unit stands for (`attr`: with attribute-value normalisation) -/
+def XUnit.val (attr : Bool) : XUnit → DCh
+  | .lit c => if attr && isS c then DCh.c 32 else Verif.Spec.Xml.lit c
+  | .named nm => match predefined nm with | some n => DCh.c n | none => DCh.ent nm
+  | .dec ds => DCh.c (numVal 10 ds)
+  | .hex ds => DCh.c (numVal 16 ds)
+
+def flat (us : List XUnit) : List Char := us.flatMap XUnit.chars
+
+/-- character data of a text token according to the grammar -/
+def WfText (d : List Char) : Prop := ∃ us : List XUnit, us.all XUnit.ok = true ∧ d = flat us ∧ us ≠ []
+
+/-- attribute value literal according to the grammar: quote, units without the quote character, quote -/
+def WfAttrVal (v : List Char) : Prop :=
+  ∃ (q : Char) (us : List XUnit), (q = '"' ∨ q = '\'') ∧ us.all XUnit.ok = true ∧ (.lit q) ∉ us ∧
+    v = q :: (flat us ++ [q])
+
+/-- content of a CDATA section: legal characters -/
+def WfCDataText (t : List Char) : Prop := ∀ c ∈ t, isS c = true ∨ 32 ≤ c.toNat
+
 /-! ## infoset as an event stream -/
 
 inductive Mark
